@@ -71,34 +71,70 @@ class Ref:
         return [it for it in self.items if it[0] == "tok" and (cls is None or it[2] == cls)]
 
 
+_KNOWN_CACHE = {}
+
+
 def _known_entries(ctx):
-    ids = ctx.params.get("known_active") or []
+    ids = tuple(ctx.params.get("known_active") or ())
     if not ids:
         return []
-    try:
-        from vf.core import load_known
-        return [e for e in load_known("C02") if e.get("id") in ids]
-    except Exception:
-        return []
+    if ids not in _KNOWN_CACHE:
+        try:
+            from vf.core import load_known
+            _KNOWN_CACHE[ids] = [e for e in load_known("C02") if e.get("id") in ids]
+        except Exception:
+            _KNOWN_CACHE[ids] = []
+    return _KNOWN_CACHE[ids]
+
+
+_CLS_WHERE = __import__("re").compile(r"^info\.get\('cls'\) == '([^']+)'$")
 
 
 def _is_known(ctx, kid, label, info, entries):
+    """does a recorded known finding cover this failure?  (same predicate as vf.core._matches;
+    the common form  info.get('cls') == '<class>'  is decided without eval)"""
     from vf.core import _matches
-    params = {a: b for a, b in ctx.params.items() if a != "known_active"}
-    cex = {"label": label, "inputs": {}, "info": info, "params": params}
-    return any(_matches(e, kid, cex) for e in entries)
+    params = None
+    for e in entries:
+        m = e.get("match", {})
+        w = _CLS_WHERE.match(m.get("where") or "")
+        if w and (not m.get("kernel") or m["kernel"] == kid) and (not m.get("label") or m["label"] == label):
+            if info.get("cls") == w.group(1):
+                return True
+            continue
+        if params is None:
+            params = {a: b for a, b in ctx.params.items() if a != "known_active"}
+        if _matches(e, kid, {"label": label, "inputs": {}, "info": info, "params": params}):
+            return True
+    return False
 
 
-def _judge(ctx, kid, ref, channels, deco_strings=(), deco_chars="", info=None, only_token=None):
-    """channels: [(name, str)] - the observed text(s).  Collect every failure, report one
-    that is not a recorded known finding first (so a known defect cannot mask another)."""
+def _failure_class(rules, label, feats):
+    """signature class of a failure: first rule (class id, labels, any-of features, all-of
+    features) that applies; the class ids are what known_findings.json refers to"""
+    fs = set(feats)
+    for cid, labels, any_f, all_f in rules:
+        if label in labels and (not any_f or fs & set(any_f)) and set(all_f) <= fs:
+            return cid
+    return label + ":" + "+".join(sorted(f for f in fs if not f.startswith("doc:")))
+
+
+def _judge(ctx, kid, ref, channels, deco_strings=(), deco_chars="", info=None, only_token=None, rules=()):
+    """channels: [(name, str)] - the observed text(s).  Collect every failure of the path and
+    report the first one that is not covered by an active known finding (a known defect cannot
+    mask another one on the same path)."""
     info = dict(info or {})
     fails = []
+    doc_feats = set()
+    for it in ref.items:
+        if it[0] in ("tok", "sep", "exact") or (it[0] == "void" and len(it) > 1):
+            doc_feats.update("doc:" + f for f in it[-1])
 
     def fail(label, feats, **kw):
         d = dict(info)
         d.update(kw)
         d["feats"] = sorted(set(feats))
+        d["cls"] = _failure_class(rules, label, set(feats) | doc_feats)
         fails.append((label, d))
 
     texts = [t for _, t in channels]
@@ -106,16 +142,17 @@ def _judge(ctx, kid, ref, channels, deco_strings=(), deco_chars="", info=None, o
     for it in ref.tokens():
         _, s, cls, feats = it
         n = sum(t.count(s) for t in texts)
+        want = getattr(ref, "count", {}).get(s, 1)
         if only_token is not None and s != only_token:
-            if cls == "body" and n == 1:
+            if cls == "body" and n == want:
                 pass
             else:
                 continue
         if cls == "body":
-            if n == 0:
-                fail("body-text-lost", feats, token=s)
-            elif n > 1:
-                fail("body-text-duplicated", feats, token=s, count=n)
+            if n < want:
+                fail("body-text-lost", feats, token=s, count=n, expected=want)
+            elif n > want:
+                fail("body-text-duplicated", feats, token=s, count=n, expected=want)
             else:
                 for ci, t in enumerate(texts):
                     p = t.find(s)
@@ -176,11 +213,17 @@ def _judge(ctx, kid, ref, channels, deco_strings=(), deco_chars="", info=None, o
     ctx.require(True, "reached")
     if not fails:
         return
+    # Known findings whose pinned witness still fails on this tree (params["known_active"], set by the
+    # driver) are excluded here: a failure of a recorded class is waived, so that only a DIFFERENT
+    # violation is reported (DESIGN section 2, known findings).  Witness replays and counterexample
+    # replays run without known_active and therefore see every failure.
     entries = _known_entries(ctx)
     if entries:
         fresh = [f for f in fails if not _is_known(ctx, kid, f[0], f[1], entries)]
-        if fresh:
-            fails = fresh
+        if not fresh:
+            ctx.note("failures of recorded known classes waived")
+            return
+        fails = fresh
     label, d = fails[0]
     ctx.fail(label, **d)
 
@@ -194,9 +237,29 @@ def _classify(loc, table):
     return "other", None
 
 
-def _sym_local(ctx, name, lengths, lo=65, hi=122):
+def _sym_local(ctx, name, lengths, alphabet="alpha"):
+    """symbolic element name: first character a letter, the others from the alphabet
+    (alpha: A-Za-z, lower-dash: a-z and '-', lower-digit: a-z0-9) - always a valid XML / HTML name"""
     n = lengths[ctx.choice(name + "_len", len(lengths))]
-    return ctx.fresh_chars(name, n, lo, hi)
+    lo, hi = {"alpha": (65, 122), "lower-dash": (45, 122), "lower-digit": (48, 122)}[alphabet]
+    t = ctx.fresh_chars(name, n, lo, hi)
+    for i in range(n):
+        if ctx.concrete:
+            ch = ord(t[i])
+            low, up, dash, dig = 97 <= ch <= 122, 65 <= ch <= 90, ch == 45, 48 <= ch <= 57
+        else:
+            ch = t.c[i]
+            low, up, dash, dig = (ch >= 97) & (ch <= 122), (ch >= 65) & (ch <= 90), ch == 45, (ch >= 48) & (ch <= 57)
+        if alphabet == "alpha":
+            ok = low | up
+        elif i == 0:
+            ok = low
+        elif alphabet == "lower-dash":
+            ok = low | dash
+        else:
+            ok = low | dig
+        ctx.assume(ok)
+    return t
 
 
 def _tag(ctx, ns, loc):
@@ -238,6 +301,18 @@ RUN_CHILD_SPEC = {
     "delText": "deleted", "instrText": "code", "delInstrText": "code",
     "sym": "glyph", "noBreakHyphen": "glyph", "softHyphen": "glyph", "rPr": "props",
 }
+
+
+# failure classes (class id, labels, any-of features, all-of features); first match wins
+K1_RULES = [
+    ("docx-block-level-sdt-or-customxml-dropped", ("body-text-lost",), ("block-sdt", "block-customXml"), ()),
+    ("docx-vml-textbox-without-alternatecontent-lost", ("body-text-lost",), ("vml-textbox",), ()),
+    ("docx-nested-table-text-repeated", ("body-text-duplicated",), ("nested-table",), ()),
+    ("docx-textbox-in-table-cell", ("body-text-duplicated", "body-text-reordered", "excluded-text-leaks"),
+     ("textbox", "vml-textbox", "ac-fallback", "textbox-in-cell"), ("table",)),
+    ("docx-run-tab-or-break-dropped", ("boundary-merged",), ("run-tab", "run-br", "run-cr", "run-ptab"), ()),
+    ("docx-textbox-merged-into-anchor-paragraph", ("boundary-merged",), ("textbox-para",), ()),
+]
 
 
 def _docx():
@@ -384,9 +459,13 @@ class DocxGen:
         p = ET.SubElement(parent, W + "p")
         kinds = ctx.params.get("inline_kinds") or self.INLINE
         m = ctx.params.get("M", 2)
-        n = ctx.choice("n_inline", m + 1)
+        first = ctx.params.get("first_inline")
+        n = (1 + ctx.choice("n_more_inline", m)) if first else ctx.choice("n_inline", m + 1)
         for i in range(n):
-            self.inline(p, kinds[ctx.choice(self.nm("inline"), len(kinds))])
+            if first and i == 0:
+                self.inline(p, first)
+            else:
+                self.inline(p, kinds[ctx.choice(self.nm("inline"), len(kinds))])
         ref.sep("para")
         return p
 
@@ -452,10 +531,12 @@ class DocxGen:
 
     BLOCKS = ["p", "table", "sdt-p", "sdt-table", "customXml-p"]
 
-    def block(self, body, kind):
+    def block(self, body, kind, simple=False):
         ctx, ref = self.ctx, self.ref
         if kind == "p":
             self.plain_par(body)
+        elif kind == "table" and simple:
+            self.table(body, 1, 2, self.cell_content("p"))
         elif kind == "table":
             rows = 1 + ctx.choice(self.nm("rows"), 2)
             cols = 1 + ctx.choice(self.nm("cols"), 2)
@@ -522,11 +603,12 @@ def k1_docx(ctx):
         g.block(body, holder)
         g.plain_par(body)
     else:
-        n = 1 + ctx.choice("n_blocks", ctx.params.get("N", 2))
-        first = ctx.params.get("first")
-        for i in range(n):
-            kinds = [first] if (first and i == 0) else g.BLOCKS
-            g.block(body, kinds[ctx.choice(g.nm("block"), len(kinds))])
+        # [plain paragraph]? + first block (all its variants) + 0..N-1 following blocks (simple forms)
+        if ctx.flag("lead_paragraph"):
+            g.plain_par(body)
+        g.block(body, ctx.params["first"])
+        for i in range(ctx.choice("n_following", ctx.params.get("N", 2))):
+            g.block(body, g.BLOCKS[ctx.choice(g.nm("block"), len(g.BLOCKS))], simple=True)
     ET.SubElement(body, W + "sectPr")
     info = {"doc": _show(body)[:600]}
     try:
@@ -556,13 +638,18 @@ def k1_docx(ctx):
         ctx.require(not (a in out and b in out and out.find(a) < out.find(b) and
                          any(ch.isspace() for ch in out[out.find(a) + len(a):out.find(b)])), "twin")
         return
-    _judge(ctx, "K1", ref, [("text", out)], info=info, only_token=only)
+    _judge(ctx, "K1", ref, [("text", out)], info=info, only_token=only, rules=K1_RULES)
 
 
 def _k1_parts(tier):
     m = 2 if tier == "quick" else 3
     lens = (1, 2, 3, 7) if tier == "quick" else (1, 2, 3, 4, 7, 9, 12, 13)
-    parts = [{"space": "inline", "M": m, "sym_lens": lens}]
+    if tier == "quick":
+        parts = [{"space": "inline", "M": m, "sym_lens": lens}]
+    else:
+        # two items with every name length + three items with the short name lengths, split by the first item
+        parts = [{"space": "inline", "M": 2, "sym_lens": lens, "first_inline": k} for k in DocxGen.INLINE]
+        parts += [{"space": "inline", "M": 3, "sym_lens": (1, 3), "first_inline": k} for k in DocxGen.INLINE]
     n = 2 if tier == "quick" else 3
     for first in DocxGen.BLOCKS:
         parts.append({"space": "blocks", "N": n, "first": first})
@@ -595,6 +682,27 @@ ODF_INLINE_SPEC = {
 }
 # children of office:text / text:section / table cells
 ODF_BLOCK_SPEC = {"p": "par", "h": "par", "list": "list", "section": "section"}
+
+
+K2_RULES = {
+    "odt": [
+        ("odt-tracked-deletion-in-full-text", ("excluded-text-leaks",), ("tracked-deletion",), ()),
+        ("odt-note-or-annotation-in-cell-or-list-leaks", ("excluded-text-leaks",), ("note", "annotation"), ()),
+        ("odt-nested-list-repeated", ("body-text-duplicated",), ("nested-list",), ()),
+        ("odt-nested-table-repeated", ("body-text-duplicated",), ("nested-table",), ()),
+        ("odt-textbox-paragraph-repeated", ("body-text-duplicated",), ("textbox",), ()),
+        ("odt-heading-in-list-or-cell-lost", ("body-text-lost",), ("heading-in-list", "heading-in-cell"), ()),
+        ("odt-list-header-lost", ("body-text-lost",), ("list-header",), ()),
+        ("odt-textbox-merged-into-anchor-paragraph", ("boundary-merged",), ("textbox-para",), ()),
+    ],
+    "odg": [
+        ("odg-annotation-in-full-text", ("excluded-text-leaks",), ("annotation", "page-annotation"), ()),
+    ],
+    "odp": [
+        ("odp-annotation-in-paragraph-leaks", ("excluded-text-leaks",), ("annotation",), ()),
+        ("odp-text-outside-top-level-frames-lost", ("body-text-lost",), ("custom-shape", "group"), ()),
+    ],
+}
 
 
 def _odf_mods():
@@ -701,8 +809,10 @@ class OdfGen:
             c.set(TEXT + "change-id", "ct1")
         elif kind == "sym":
             lens = ctx.params.get("sym_lens", (1, 3, 4, 10))
-            loc = _sym_local(ctx, self.nm("inline_name"), lens, 45, 122)
+            loc = _sym_local(ctx, self.nm("inline_name"), lens, "lower-dash")
             cls, name = _classify(loc, ODF_INLINE_SPEC)
+            if cls == "excluded" and self.fmt != "odt":
+                cls = "other"           # footnotes exist in text documents only
             c = ET.SubElement(p, _tag(ctx, TEXT, loc))
             if cls == "space":
                 ref.exact(" ", "text-s")
@@ -722,10 +832,13 @@ class OdfGen:
         ref.sep("para")
         p = ET.SubElement(parent, TEXT + tag)
         p.text = ref.tok()
-        kinds = ctx.params.get("inline_kinds") or self.INLINE
-        n = ctx.choice("n_inline", ctx.params.get("M", 2) + 1)
+        kinds = ctx.params.get("inline_kinds") or [k for k in self.INLINE if k not in ("note", "textbox") or self.fmt == "odt"]
+        first = ctx.params.get("first_inline")
+        m = ctx.params.get("M", 2)
+        n = (1 + ctx.choice("n_more_inline", m)) if first else ctx.choice("n_inline", m + 1)
         for i in range(n):
-            c = self.inline(p, kinds[ctx.choice(self.nm("inline"), len(kinds))])
+            kind = first if (first and i == 0) else kinds[ctx.choice(self.nm("inline"), len(kinds))]
+            c = self.inline(p, kind)
             c.tail = ref.tok()
         ref.sep("para")
         return p
@@ -809,10 +922,14 @@ class OdfGen:
     TABLE_VARIANTS = ["p", "p-p", "nested", "list", "h", "p-textbox", "header-rows"]
     ODT_BLOCKS = ["p", "h", "list", "table", "section", "tracked", "frame", "toc", "sym"]
 
-    def odt_block(self, body, kind):
+    def odt_block(self, body, kind, simple=False):
         ctx, ref = self.ctx, self.ref
         if kind in ("p", "h"):
             self.par(body, kind)
+        elif kind == "list" and simple:
+            self.odt_list(body, "two-items")
+        elif kind == "table" and simple:
+            self.odt_table(body, 1, 2, "p")
         elif kind == "list":
             v = self.LIST_VARIANTS[ctx.choice(self.nm("list"), len(self.LIST_VARIANTS))]
             self.odt_list(body, v)
@@ -847,7 +964,7 @@ class OdfGen:
             self.par(ib)
             ref.pop()
         elif kind == "sym":
-            loc = _sym_local(ctx, self.nm("block_name"), ctx.params.get("block_lens", (1, 4, 7)), 45, 122)
+            loc = _sym_local(ctx, self.nm("block_name"), ctx.params.get("block_lens", (1, 4, 7)), "lower-dash")
             cls, name = _classify(loc, ODF_BLOCK_SPEC)
             el = ET.SubElement(body, _tag(ctx, TEXT, loc))
             ref.desc.append("block text:%s (%s)" % (str(loc), cls))
@@ -945,7 +1062,7 @@ class OdfGen:
 
 
 def _odf_file(fmt, body_elem):
-    kind = {"odt": "text", "odg": "graphics", "odp": "presentation"}[fmt]
+    kind = {"odt": "text", "odg": "graphics", "odp": "presentation", "ods": "spreadsheet"}[fmt]
     root = ET.Element(OFFICE + "document-content")
     b = ET.SubElement(root, OFFICE + "body")
     b.append(body_elem)
@@ -973,15 +1090,16 @@ def k2_odf(ctx):
             g.odt_block(body, ("focus", "focus-h", "focus-in-cell", "focus-in-list")[ctx.choice("container", 4)])
             g.par(body)
         else:
-            n = 1 + ctx.choice("n_blocks", ctx.params.get("N", 2))
-            first = ctx.params.get("first")
-            for i in range(n):
-                kinds = [first] if (first and i == 0) else [b for b in g.ODT_BLOCKS if b != "tracked"]
-                g.odt_block(body, kinds[ctx.choice(g.nm("block"), len(kinds))])
+            if ctx.params["first"] != "tracked" and ctx.flag("lead_paragraph"):
+                g.par(body)
+            g.odt_block(body, ctx.params["first"])
+            follow = [b for b in g.ODT_BLOCKS if b not in ("tracked", "sym")]
+            for i in range(ctx.choice("n_following", ctx.params.get("N", 2))):
+                g.odt_block(body, follow[ctx.choice(g.nm("block"), len(follow))], simple=True)
         mod = odt
     else:
         body = ET.Element(OFFICE + ("drawing" if fmt == "odg" else "presentation"))
-        pages = 1 + (ctx.choice("extra_page", 2) if space == "shapes" else 0)
+        pages = 1 + (ctx.choice("extra_page", 2) if (space == "shapes" and ctx.params.get("pages", 1) > 1) else 0)
         for pi in range(pages):
             ref.sep("page")
             page = ET.SubElement(body, DRAW + "page")
@@ -990,12 +1108,11 @@ def k2_odf(ctx):
                 g.shape(page, "frame-focus")
                 g.shape(page, "frame")
             else:
+                shapes = [s for s in g.SHAPES if s not in ("frame-focus", "frame-nested") and
+                          (fmt == "odp" or s not in ("notes", "table-frame"))]
                 n = 1 + ctx.choice(g.nm("n_shapes"), ctx.params.get("N", 2))
-                first = ctx.params.get("first")
-                shapes = [s for s in g.SHAPES if s != "frame-focus" and (fmt == "odp" or s not in ("notes", "table-frame"))]
                 for i in range(n):
-                    kinds = [first] if (first and i == 0 and pi == 0) else shapes
-                    g.shape(page, kinds[ctx.choice(g.nm("shape"), len(kinds))])
+                    g.shape(page, shapes[ctx.choice(g.nm("shape"), len(shapes))])
             ref.sep("page")
         mod = odg if fmt == "odg" else odp
     info = {"doc": _show(body)[:700], "fmt": fmt}
@@ -1048,20 +1165,31 @@ def k2_odf(ctx):
         ex = [i for i, it in enumerate(ref.items) if it[0] == "exact"]
         ctx.assume(len(ex) > 0)
         ref.items[ex[0]] = ("exact", ref.items[ex[0]][1] + " ", ref.items[ex[0]][2])
-    _judge(ctx, "K2", ref, channels, info=info, only_token=only)
+    _judge(ctx, "K2", ref, channels, info=info, only_token=only, rules=K2_RULES[fmt])
 
 
 def _k2_parts(tier):
     m = 2 if tier == "quick" else 3
     n = 2 if tier == "quick" else 3
-    cr = (-1, 3) if tier == "quick" else (-2, 8)
+    cr = (-1, 3) if tier == "quick" else (-2, 5)
     lens = (1, 3, 4, 10) if tier == "quick" else (1, 2, 3, 4, 5, 10)
-    parts = [{"fmt": "odt", "space": "inline", "M": m, "c_range": cr, "sym_lens": lens}]
+    parts = []
+    plain = [k for k in OdfGen.INLINE if k != "sym"]
+    for fmt in ("odt", "odg", "odp"):
+        kinds = [k for k in plain if fmt == "odt" or k not in ("note", "textbox")]
+        if tier == "quick" or fmt == "odp":
+            parts.append({"fmt": fmt, "space": "inline", "M": m if fmt != "odp" else 1, "c_range": cr, "inline_kinds": kinds})
+        else:
+            for k in kinds:
+                parts.append({"fmt": fmt, "space": "inline", "M": m, "c_range": cr, "inline_kinds": kinds, "first_inline": k})
+        for ln in lens:
+            parts.append({"fmt": fmt, "space": "inline", "M": 1, "sym_lens": (ln,), "inline_kinds": ["sym"]})
+        if fmt != "odt":
+            parts.append({"fmt": fmt, "space": "shapes", "N": n, "pages": 1})
+            if tier != "quick":
+                parts.append({"fmt": fmt, "space": "shapes", "N": 2, "pages": 2})
     for first in OdfGen.ODT_BLOCKS:
         parts.append({"fmt": "odt", "space": "blocks", "N": n, "first": first})
-    for fmt in ("odg", "odp"):
-        parts.append({"fmt": fmt, "space": "inline", "M": m if fmt == "odg" else 1, "c_range": cr, "sym_lens": lens})
-        parts.append({"fmt": fmt, "space": "shapes", "N": n})
     return parts
 
 
@@ -1120,6 +1248,20 @@ def _html_spec():
 HTML_SPEC = _html_spec()
 
 
+K3_RULES = {
+    "html": [
+        ("html-table-caption-lost", ("body-text-lost",), ("caption",), ()),
+        ("html-nested-table-repeated", ("body-text-duplicated",), ("nested-table",), ()),
+        ("html-br-in-heading-merged", ("boundary-merged",), ("br", "sym-br"), ("heading",)),
+        ("html-omitted-optional-end-tags", LABELS, ("omitted-end-tags",), ()),
+        ("html-cell-content-flattened", ("boundary-merged",), (), ("cell",)),
+    ],
+    "epub": [
+        ("epub-nested-table-loses-outer-cell-text", ("body-text-lost", "boundary-merged"), (), ("cell", "doc:nested-table")),
+    ],
+}
+
+
 def _html_mods():
     import sharepoint2text.parsing.extractors.html_extractor as h
     import sharepoint2text.parsing.extractors.epub_extractor as e
@@ -1133,6 +1275,7 @@ class HtmlGen:
         self.toks = []
         self.k = 0
         self.omit_end = False
+        self.phrasing_only = False
 
     def nm(self, s):
         self.k += 1
@@ -1143,8 +1286,34 @@ class HtmlGen:
 
     def end(self, tag, optional=False):
         if optional and self.omit_end:
+            self.toks.append(("end?", tag))         # resolved by finalize()
             return
         self.toks.append(("end", tag))
+
+    # HTML Living Standard 13.1.2.4 optional tags: the end tag may be omitted if the element is
+    # immediately followed by one of these start tags, or if there is no more content in the parent
+    OMIT_BEFORE = {
+        "p": ("address", "article", "aside", "blockquote", "details", "div", "dl", "fieldset", "figcaption", "figure",
+              "footer", "form", "h1", "h2", "h3", "h4", "h5", "h6", "header", "hgroup", "hr", "main", "menu", "nav",
+              "ol", "p", "pre", "search", "section", "table", "ul"),
+        "li": ("li",), "td": ("td", "th"), "th": ("td", "th"), "tr": ("tr",), "dt": ("dt", "dd"), "dd": ("dd", "dt"),
+        "tbody": ("tbody", "tfoot"),
+    }
+
+    def finalize(self):
+        out = []
+        toks = self.toks
+        for i, t in enumerate(toks):
+            if t[0] != "end?":
+                out.append(t)
+                continue
+            nxt = toks[i + 1] if i + 1 < len(toks) else None
+            omit = nxt is not None and (
+                nxt[0] in ("end", "end?") or
+                (nxt[0] == "start" and isinstance(nxt[1], str) and nxt[1] in self.OMIT_BEFORE.get(t[1], ())))
+            if not omit:
+                out.append(("end", t[1]))
+        self.toks = out
 
     def text(self, s):
         self.toks.append(("text", s))
@@ -1198,17 +1367,14 @@ class HtmlGen:
             self.text("\xa0")
         elif kind == "sym":
             lens = ctx.params.get("sym_lens", (1, 2, 3, 5, 6))
-            t = _sym_local(ctx, self.nm("tag"), lens, 48, 122)
-            if not ctx.concrete:
-                for i, ch in enumerate(t.c):
-                    ctx.assume(ch >= 97 if i == 0 else ((ch <= 57) | (ch >= 97)))
-            else:
-                for i, ch in enumerate(t):
-                    ctx.assume(("a" <= ch <= "z") or (i > 0 and "0" <= ch <= "9"))
+            t = _sym_local(ctx, self.nm("tag"), lens, "lower-digit")
             cls, name = _classify(t, HTML_SPEC)
             # table parts outside a table / second html, head, body: contradictory markup, outside the claim
             ctx.assume(cls != "tablepart")
             ctx.assume(name not in ("html", "head", "body", "frameset"))
+            if self.phrasing_only:
+                # p and headings hold phrasing content only: no block children, no hr
+                ctx.assume(cls != "block" and name != "hr")
             ref.desc.append("<%s> (%s)" % (str(t), cls))
             if cls in ("void", "void-removed"):
                 self.start(t)
@@ -1315,9 +1481,11 @@ class HtmlGen:
     BLOCKS = ["p", "div-text", "div-p-p", "h2", "h2-br", "ul", "ul-nested", "ol-p", "table", "blockquote", "pre",
               "bare-text", "bare-br", "hr", "dl", "div-mixed"]
 
-    def blockk(self, kind):
+    def blockk(self, kind, simple=False):
         ctx, ref = self.ctx, self.ref
-        if kind == "p":
+        if kind == "table" and simple:
+            self.table(1, 2, "text")
+        elif kind == "p":
             self.block("p", self.tok, True)
         elif kind == "div-text":
             self.block("div", self.tok)
@@ -1332,9 +1500,9 @@ class HtmlGen:
             def f():
                 self.tok()
                 self.start("br")
-                ref.sep("br", "br-in-heading")
+                ref.sep("br")
                 self.tok()
-            self.block("h2", f)
+            self.block("h2", f, feat="heading")
         elif kind == "ul":
             self.block("ul", lambda: (self.block("li", self.tok, True), self.block("li", self.tok, True)))
         elif kind == "ul-nested":
@@ -1372,7 +1540,9 @@ class HtmlGen:
             if tag == "li":
                 self.block("ul", lambda: self.block("li", self.focus))
             else:
-                self.block(tag, self.focus)
+                self.phrasing_only = tag in ("p", "h2")
+                self.block(tag, self.focus, feat="heading" if tag == "h2" else None)
+                self.phrasing_only = False
         elif kind == "focus-td":
             self.table(1, 2, "focus")
 
@@ -1444,6 +1614,8 @@ def k3_html(ctx):
     ref = g.ref
     space = ctx.params["space"]
     g.omit_end = bool(ctx.params.get("omit_end"))
+    if g.omit_end:
+        ref.push("omitted-end-tags")
     g.start("html")
     g.start("body")
     if space == "inline":
@@ -1451,13 +1623,14 @@ def k3_html(ctx):
         g.blockk(("focus-p", "focus-li", "focus-h2", "focus-div", "focus-td")[ctx.choice("container", 5)])
         g.blockk("p")
     else:
-        n = 1 + ctx.choice("n_blocks", ctx.params.get("N", 2))
-        first = ctx.params.get("first")
-        for i in range(n):
-            kinds = [first] if (first and i == 0) else g.BLOCKS
-            g.blockk(kinds[ctx.choice(g.nm("block"), len(kinds))])
+        if ctx.flag("lead_paragraph"):
+            g.blockk("p")
+        g.blockk(ctx.params["first"])
+        for i in range(ctx.choice("n_following", ctx.params.get("N", 2))):
+            g.blockk(g.BLOCKS[ctx.choice(g.nm("block"), len(g.BLOCKS))], simple=True)
     g.end("body")
     g.end("html")
+    g.finalize()
     toks = g.toks
     mod = h if target == "html" else e
     info = {"html": _html_render(toks)[:700], "target": target}
@@ -1476,8 +1649,9 @@ def k3_html(ctx):
                 x.feed(html)
                 out, tables = x.get_text(), x.get_tables()
         else:
-            ctx.hash_universe = S.str_constants(mod) | set(HTML_SPEC)
-            shadows = {"REMOVE_TAGS": S.SymSet(sorted(mod.REMOVE_TAGS)), "BLOCK_TAGS": S.SymSet(sorted(mod.BLOCK_TAGS))}
+            ctx.hash_universe = S.str_constants(mod)
+            shadows = {"REMOVE_TAGS": S.SymSet(sorted(mod.REMOVE_TAGS)), "BLOCK_TAGS": S.SymSet(sorted(mod.BLOCK_TAGS)),
+                       "int": S.IntShadow}
             for nm_ in ("_VOID_TAGS", "_VOID_REMOVE_TAGS"):
                 if hasattr(mod, nm_):
                     shadows[nm_] = S.SymSet(sorted(getattr(mod, nm_)))
@@ -1523,7 +1697,7 @@ def k3_html(ctx):
         idx = [i for i, it in enumerate(ref.items) if it[0] == "tok"]
         ctx.assume(len(idx) >= 4)
         ref.items.insert(idx[2], ("sep", ("twin",)))
-    _judge(ctx, "K3", ref, channels, deco_chars="-|", info=info, only_token=only)
+    _judge(ctx, "K3", ref, channels, deco_chars="-|", info=info, only_token=only, rules=K3_RULES[target])
 
 
 def _k3_parts(tier):
@@ -1532,11 +1706,14 @@ def _k3_parts(tier):
     lens = (1, 2, 3, 5, 6) if tier == "quick" else (1, 2, 3, 4, 5, 6, 7, 8, 10)
     parts = []
     for target in ("html", "epub"):
-        parts.append({"target": target, "space": "inline", "M": m, "sym_lens": lens})
+        parts.append({"target": target, "space": "inline", "M": m, "inline_kinds": [k for k in HtmlGen.INLINE if k != "sym"]})
+        for ln in lens:
+            parts.append({"target": target, "space": "inline", "M": 1, "sym_lens": (ln,), "inline_kinds": ["sym"]})
         for first in HtmlGen.BLOCKS:
-            parts.append({"target": target, "space": "blocks", "N": n, "first": first})
-        parts.append({"target": target, "space": "blocks", "N": n, "first": "table", "omit_end": True})
-        parts.append({"target": target, "space": "blocks", "N": n, "first": "ul", "omit_end": True})
+            parts.append({"target": target, "space": "blocks", "N": 2 if first == "table" else n, "first": first})
+    # HTML syntax only (EPUB content documents are XHTML): optional end tags of p, li, td, tr omitted
+    for first in ("table", "ul", "div-p-p", "dl"):
+        parts.append({"target": "html", "space": "blocks", "N": 2 if first == "table" else n, "first": first, "omit_end": True})
     return parts
 
 
@@ -1549,12 +1726,831 @@ def _k3_targets():
             e._XhtmlTextExtractor.handle_data, e._XhtmlTextExtractor.get_text]
 
 
+# =======================================================================================
+# K4  RTF: real reader on documents assembled from a lexeme alphabet vs a reference reader
+# =======================================================================================
+
+K4_RULES = [
+    ("rtf-cell-and-row-marks-dropped", ("boundary-merged",), ("cell-mark",), ()),
+    ("rtf-page-or-section-break-merged", ("boundary-merged",), ("page", "sect"), ()),
+    ("rtf-deleted-revision-text-in-full-text", ("excluded-text-leaks",), ("deleted",), ()),
+    ("rtf-control-words-starting-with-u-leak", ("foreign-text-in-output",), ("doc:u-word",), ()),
+    ("rtf-unicode-fallback-not-skipped", ("foreign-text-in-output",), ("doc:u-fallback",), ()),
+]
+
+# RTF 1.9.1: lexeme -> (rtf source, reference semantics).  Semantics items:
+#   ("tok", cls, feat) a unique token is placed at "%s";  ("sep", feat);  ("chars", feat) literal
+#   characters that may appear (decoration);  ("nothing", feat)
+RTF_LEXEMES = [
+    ("text",        "%s",                              [("tok", "body", None)]),
+    ("bold-group",  "{\\b %s}",                        [("tok", "body", "group")]),
+    ("par",         "\\par ",                          [("sep", "par")]),
+    ("par-nl",      "\\par\r\n",                       [("sep", "par")]),
+    ("tab",         "\\tab ",                          [("sep", "tab")]),
+    ("line",        "\\line ",                         [("sep", "line")]),
+    ("cell",        "\\cell ",                         [("sep", "cell-mark")]),
+    ("row",         "\\cell\\row ",                    [("sep", "cell-mark")]),
+    ("page",        "\\page ",                         [("sep", "page")]),
+    ("sect",        "\\sect ",                         [("sep", "sect")]),
+    ("hex",         "\\'e9",                           [("chars", "hex")]),
+    ("uni-q",       "\\u233?",                         [("chars", "unicode")]),
+    ("uni-hex",     "\\u8364\\'80",                    [("chars", "u-fallback")]),
+    ("uni-sp-hex",  "\\u8364 \\'80",                   [("chars", "u-fallback")]),
+    ("uni-letter",  "\\u233e",                          [("chars", "u-fallback")]),
+    ("uni-neg",     "\\u-3913?",                       [("chars", "unicode")]),
+    ("star-dest",   "{\\*\\dest %s}",                  [("tok", "excl", "star-destination")]),
+    ("fonttbl",     "{\\fonttbl{\\f0\\fswiss %s;}}",   [("tok", "excl", "fonttbl")]),
+    ("info",        "{\\info{\\title %s}}",            [("tok", "excl", "info")]),
+    ("header",      "{\\header \\pard %s\\par}",       [("tok", "excl", "header")]),
+    ("footer",      "{\\footer \\pard %s\\par}",       [("tok", "excl", "footer")]),
+    ("deleted",     "{\\deleted %s}",                  [("tok", "excl", "deleted")]),
+    ("annotation",  "{\\*\\annotation %s}",            [("tok", "excl", "annotation")]),
+    ("ul",          "{\\ul %s}",                       [("tok", "body", "u-word")]),
+    ("ulnone",      "\\ulnone ",                       [("nothing", "u-word")]),
+    ("uc1",         "\\uc1 ",                          [("nothing", "u-word")]),
+    ("escaped",     "\\\\\\{\\}",                      [("chars", "escaped")]),
+    ("space",       " ",                               [("nothing", "space")]),
+    ("pard",        "\\pard\\plain\\fs24 ",            [("nothing", "format")]),
+    ("nbsp",        "\\~",                             [("chars", "nbsp")]),
+    ("field",       "{\\field{\\*\\fldinst HYPERLINK \"http://x/\"}{\\fldrslt %s}}", [("tok", "body", "field-result")]),
+    ("nested",      "{\\i {\\b %s}}",                  [("tok", "body", "group")]),
+    ("pict",        "{\\pict\\wmetafile8 0100090000}", [("nothing", "pict")]),
+]
+RTF_DECO = "\xe9\u20ac\\{}\xa0\xad\uf0b7"
+
+
+def k4_rtf(ctx):
+    import sharepoint2text
+    ref = Ref()
+    names = ctx.params.get("lexemes") or [l[0] for l in RTF_LEXEMES]
+    table = {l[0]: l for l in RTF_LEXEMES}
+    L = ctx.params.get("L", 2)
+    n = 1 + ctx.choice("n_lexemes", L)
+    src = []
+    src.append(ref.tok())                    # leading body token
+    used = []
+    for i in range(n):
+        if i == 0 and ctx.params.get("first"):
+            name = ctx.params["first"]
+        else:
+            name = names[ctx.choice("lexeme%d" % i, len(names))]
+        used.append(name)
+        _, fmt, sem = table[name]
+        arg = None
+        for item in sem:
+            if item[0] == "tok":
+                arg = ref.tok(item[1], extra=(item[2],) if item[2] else ())
+            elif item[0] == "sep":
+                ref.sep(item[1])
+            else:
+                ref.items.append(("void", (item[1],)))
+        src.append(fmt % arg if "%s" in fmt else fmt)
+        # a body token between lexemes (always after the last one): boundaries become observable
+        if i == n - 1 or ctx.flag("token_after%d" % i):
+            src.append(ref.tok())
+    rtf = "{\\rtf1\\ansi\\ansicpg1252\\deff0 " + "".join(src) + "}"
+    info = {"rtf": rtf[:400], "lexemes": used}
+    try:
+        doc = next(sharepoint2text.read_rtf(io.BytesIO(rtf.encode("cp1252")), "x.rtf"))
+        out = doc.get_full_text()
+    except Exception as e:
+        ctx.fail("extractor-raised", exc=type(e).__name__, msg=str(e)[:100], **info)
+        return
+    info["out"] = out[:300]
+    only = None
+    if ctx.perturb == "header_is_body":
+        ex = ref.tokens("excl")
+        ctx.assume(len(ex) > 0)
+        i = ref.items.index(ex[0])
+        ref.items[i] = ("tok", ex[0][1], "body", ex[0][3])
+        only = ex[0][1]
+    _judge(ctx, "K4", ref, [("text", out)], deco_chars=RTF_DECO, info=info, only_token=only, rules=K4_RULES)
+
+
+def _k4_parts(tier):
+    L = 2 if tier == "quick" else 3
+    names = [l[0] for l in RTF_LEXEMES]
+    if tier == "quick":
+        return [{"L": L}]
+    # thorough: partition by the first lexeme
+    return [{"L": L, "first": nm} for nm in names]
+
+
+def _k4_targets():
+    from sharepoint2text.parsing.extractors.ms_legacy import rtf_extractor as rx
+    return [rx._RtfParser._strip_rtf_full_with_pages, rx._RtfParser._extract_body_text, rx._RtfParser._is_skip_destination,
+            rx._RtfParser.parse, rx.read_rtf]
+
+
+# =======================================================================================
+# K5  sheet-to-text: xlsx (_read_sheet_data/_format_sheet_as_text), xls (_read_content on a
+#     fake xlrd book, symbolic cell type), ods (_extract_sheet, symbolic repeat attributes)
+# =======================================================================================
+
+K5_RULES = {
+    "xlsx": [
+        ("xlsx-unnamed-placeholder-in-sheet-text", ("foreign-text-in-output",), (), ()),
+    ],
+    "xls": [],
+    "ods": [
+        ("ods-cell-comment-in-sheet-text", ("excluded-text-leaks",), ("annotation",), ()),
+        ("ods-rows-inside-row-group-or-header-rows-lost", ("body-text-lost",), ("row-group", "header-rows"), ()),
+    ],
+}
+
+CELL_KINDS = ["tok", "empty", "estr", "blank", "spaced", "int", "float-int", "float", "bool", "two-par", "comment"]
+
+
+class Grid:
+    """abstract sheet: rows x cols of (kind, python value, display token or None)"""
+
+    def __init__(self, ctx, ref, fmt):
+        self.ctx, self.ref, self.fmt = ctx, ref, fmt
+        self.num = 9100
+
+    def cell(self, kind):
+        """-> (kind, value, [display tokens])"""
+        ref = self.ref
+        if kind == "tok":
+            s = ref.tok()
+            return (kind, s, [s])
+        if kind == "spaced":
+            s = ref.tok(shape=1)
+            return (kind, s, [s])
+        if kind in ("int", "float-int", "float"):
+            self.num += 1
+            shown = str(self.num) + (".5" if kind == "float" else "")
+            ref.n += 1
+            ref.items.append(("tok", shown, "body", ref.feats((kind,))))
+            val = self.num if kind == "int" else (float(self.num) if kind == "float-int" else self.num + 0.5)
+            return (kind, val, [shown])
+        if kind == "bool":
+            return (kind, True, [])
+        if kind == "two-par":
+            a = ref.tok()
+            ref.sep("cell-paragraph")
+            b = ref.tok()
+            return (kind, (a, b), [a, b])
+        if kind == "comment":
+            s = ref.tok()
+            x = ref.tok("excl", extra=("annotation",))
+            return (kind, (s, x), [s])
+        return (kind, {"empty": None, "estr": "", "blank": " "}[kind], [])
+
+    def build(self, focus_kinds):
+        ctx, ref = self.ctx, self.ref
+        R = 1 + ctx.choice("rows", ctx.params.get("R", 3))
+        C = 1 + ctx.choice("cols", ctx.params.get("C", 2))
+        fpos = [(0, 0), (R - 1, C - 1)][ctx.choice("focus_at", 2)] if R * C > 1 else (0, 0)
+        rows = []
+        for r in range(R):
+            ref.sep("row")
+            row = []
+            for c in range(C):
+                ref.sep("cell")
+                if (r, c) == fpos:
+                    ref.push("focus-cell")
+                    row.append(self.cell(focus_kinds[ctx.choice("focus_kind", len(focus_kinds))]))
+                    ref.pop()
+                else:
+                    row.append(self.cell("empty" if ctx.flag("empty_%d_%d" % (r, c)) else "tok"))
+                ref.sep("cell")
+            rows.append(row)
+            ref.sep("row")
+        self.fpos = fpos
+        return rows
+
+
+class _FakeWs:
+    def __init__(self, rows):
+        self._rows = rows
+
+    def iter_rows(self, values_only=True):
+        for r in self._rows:
+            yield tuple(r)
+
+
+class _FakeXlCell:
+    def __init__(self, ctype, value):
+        self.ctype, self.value = ctype, value
+
+
+class _FakeXlSheet:
+    def __init__(self, name, cells):
+        self.name = name
+        self._cells = cells
+        self.nrows = len(cells)
+        self.ncols = max((len(r) for r in cells), default=0)
+
+    def cell(self, r, c):
+        return self._cells[r][c]
+
+
+class _FakeXlBook:
+    datemode = 0
+
+    def __init__(self, sheets):
+        self._sheets = sheets
+
+    def sheets(self):
+        return self._sheets
+
+
+# xlrd documentation: XL_CELL_EMPTY 0, TEXT 1, NUMBER 2, DATE 3, BOOLEAN 4, ERROR 5, BLANK 6
+XL_TYPES = {0: "empty", 1: "text", 2: "number", 3: "date", 4: "boolean", 5: "error", 6: "blank"}
+
+
+def k5_sheets(ctx):
+    fmt = ctx.params["fmt"]
+    ref = Ref()
+    g = Grid(ctx, ref, fmt)
+    name = "Sheetname"
+    deco = [name, ".0"]
+    info = {"fmt": fmt}
+    if fmt == "xlsx":
+        import sharepoint2text.parsing.extractors.ms_modern.xlsx_extractor as xm
+        from sharepoint2text.parsing.extractors.data_types import XlsxContent
+        kinds = [k for k in CELL_KINDS if k not in ("two-par", "comment")]
+        rows = g.build(kinds)
+        values = [[c[1] for c in row] for row in rows]
+        info["grid"] = repr(values)[:300]
+        try:
+            if ctx.concrete:
+                # replay: a real workbook written and re-read by openpyxl, through the public reader
+                import openpyxl
+                import sharepoint2text
+                wb = openpyxl.Workbook()
+                ws = wb.active
+                ws.title = name
+                for r, row in enumerate(values, start=1):
+                    for c, v in enumerate(row, start=1):
+                        if v is not None:
+                            ws.cell(row=r, column=c, value=v)
+                bio = io.BytesIO()
+                wb.save(bio)
+                bio.seek(0)
+                doc = next(sharepoint2text.read_xlsx(bio, "x.xlsx"))
+                out = doc.get_full_text()
+            else:
+                records, all_rows = xm._read_sheet_data(_FakeWs(values))
+                text = xm._format_sheet_as_text(all_rows)
+                sheets = [xm.XlsxSheet(name=name, data=all_rows, text=text, images=[])]
+                out = XlsxContent(sheets=sheets).get_full_text()
+        except Exception as e:
+            ctx.fail("extractor-raised", exc=type(e).__name__, msg=str(e)[:100], **info)
+            return
+        deco.append("True")
+    elif fmt == "xls":
+        import sharepoint2text.parsing.extractors.ms_legacy.xls_extractor as xl
+        from sharepoint2text.parsing.extractors.data_types import XlsContent
+        # focus cell: SYMBOLIC xlrd cell type; the value is what xlrd stores for that type
+        t = ctx.fresh_int("focus_ctype", 0, 6)
+        tname = None
+        for code, nm_ in XL_TYPES.items():
+            if t == code:
+                tname = nm_
+                break
+        kinds = {"empty": "empty", "blank": "estr", "text": "tok", "number": ("int", "float-int", "float"),
+                 "boolean": "bool", "date": "date", "error": "error"}[tname]
+        if isinstance(kinds, tuple):
+            kinds = kinds[ctx.choice("number_form", 3)]
+        if kinds in ("date", "error"):
+            rows = g.build(["empty"])
+        else:
+            rows = g.build([kinds])
+        cells = []
+        for r, row in enumerate(rows):
+            line = []
+            for c, (kind, val, shown) in enumerate(row):
+                if (r, c) == g.fpos:
+                    if kinds == "date":
+                        val = 45000.0
+                        deco.append("2023-03-15")
+                    elif kinds == "error":
+                        val = 7
+                        deco.append("#ERROR")
+                    elif kinds == "bool":
+                        val = 1
+                    elif kinds in ("int", "float-int"):
+                        val = float(val)        # xlrd stores every number as float
+                    elif val is None:
+                        val = ""
+                    line.append(_FakeXlCell(t, val))
+                else:
+                    line.append(_FakeXlCell(1 if kind == "tok" else 0, val if kind == "tok" else ""))
+            cells.append(line)
+        info["grid"] = repr([[(XL_TYPES.get(c.ctype) if isinstance(c.ctype, int) else tname, c.value) for c in row]
+                             for row in cells])[:300]
+        book = _FakeXlBook([_FakeXlSheet(name, cells)])
+        try:
+            with ctx.stub(xl.xlrd, open_workbook=lambda **kw: book):
+                sheets = xl._read_content(io.BytesIO(b""))
+            out = XlsContent(sheets=sheets, full_text="\n\n".join(s_.text for s_ in sheets)).get_full_text()
+        except Exception as e:
+            ctx.fail("extractor-raised", exc=type(e).__name__, msg=str(e)[:100], **info)
+            return
+        deco += ["True", "False"]
+    else:
+        import sharepoint2text.parsing.extractors.open_office.ods_extractor as od
+        import sharepoint2text.parsing.extractors.open_office._shared as sh
+        from sharepoint2text.parsing.extractors.data_types import OdsContent
+        rows = g.build(CELL_KINDS)
+        wrap = ("none", "header-rows", "row-group")[ctx.choice("first_row_wrapper", 3)]
+        # repeat attribute of the focus cell (part "cell") or of its row (part "row"): symbolic index k,
+        # value k+1 for k < rep_max, else 100 + (k - rep_max)  -> 1..rep_max, 100, 101
+        rmax = ctx.params.get("rep_max", 3)
+        fkind = rows[g.fpos[0]][g.fpos[1]][0]
+        crep = rrep = 1
+        kvar = None
+        if fkind in ("tok", "empty", "comment"):
+            kvar = ctx.fresh_int("repeat_index", 0, rmax + 1)
+            if ctx.concrete:
+                val = kvar + 1 if kvar < rmax else 100 + (kvar - rmax)
+            else:
+                import z3
+                val = S.SymInt(z3.If(kvar.z < rmax, kvar.z + 1, 100 + (kvar.z - rmax)))
+            if ctx.params.get("repeat", "cell") == "cell":
+                crep = val
+            else:
+                rrep = val
+        table = ET.Element(TABLE + "table")
+        table.set(TABLE + "name", name)
+        ET.SubElement(table, TABLE + "table-column")
+        for r, row in enumerate(rows):
+            holder = table
+            if r == 0 and wrap != "none":
+                holder = ET.SubElement(table, TABLE + ("table-header-rows" if wrap == "header-rows" else "table-row-group"))
+            tr = ET.SubElement(holder, TABLE + "table-row")
+            if r == g.fpos[0]:
+                tr.set(TABLE + "number-rows-repeated", str(rrep) if isinstance(rrep, int) else rrep)
+            for c, (kind, val, shown) in enumerate(row):
+                tc = ET.SubElement(tr, TABLE + "table-cell")
+                if (r, c) == g.fpos:
+                    tc.set(TABLE + "number-columns-repeated", str(crep) if isinstance(crep, int) else crep)
+                if kind in ("tok", "spaced", "estr", "blank"):
+                    tc.set(OFFICE + "value-type", "string")
+                    ET.SubElement(tc, TEXT + "p").text = val
+                elif kind in ("int", "float-int", "float"):
+                    tc.set(OFFICE + "value-type", "float")
+                    tc.set(OFFICE + "value", shown[0])
+                    ET.SubElement(tc, TEXT + "p").text = shown[0]
+                elif kind == "bool":
+                    tc.set(OFFICE + "value-type", "boolean")
+                    tc.set(OFFICE + "boolean-value", "true")
+                    ET.SubElement(tc, TEXT + "p").text = "TRUE"
+                elif kind == "two-par":
+                    tc.set(OFFICE + "value-type", "string")
+                    ET.SubElement(tc, TEXT + "p").text = val[0]
+                    ET.SubElement(tc, TEXT + "p").text = val[1]
+                elif kind == "comment":
+                    tc.set(OFFICE + "value-type", "string")
+                    an = ET.SubElement(tc, OFFICE + "annotation")
+                    ET.SubElement(an, DC + "date").text = "2024-01-01T00:00:00"
+                    ET.SubElement(an, TEXT + "p").text = val[1]
+                    ET.SubElement(tc, TEXT + "p").text = val[0]
+        info["doc"] = _show(table)[:500]
+        info["wrapper"] = wrap
+        try:
+            with ctx.shadow(od, int=S.IntShadow), ctx.shadow(sh, int=S.IntShadow):
+                sheet, _ = od._extract_sheet(None, table, 1, 0)
+            out = OdsContent(sheets=[sheet]).get_full_text()
+        except Exception as e:
+            ctx.fail("extractor-raised", exc=type(e).__name__, msg=str(e)[:100], **info)
+            return
+        nc = nr = 1
+        if kvar is not None:
+            kv = ctx.conc(kvar, 0, rmax + 1)
+            n_ = kv + 1 if kv < rmax else 100 + (kv - rmax)
+            if ctx.params.get("repeat", "cell") == "cell":
+                nc = n_
+            else:
+                nr = n_
+        info["cell_repeat"], info["row_repeat"] = nc, nr
+        # expected multiplicities: the focus cell nc times, every cell of the focus row nr times
+        frow = g.fpos[0]
+        counts = {}
+        for r, row in enumerate(rows):
+            for c, (kind, val, shown) in enumerate(row):
+                for s_ in shown:
+                    counts[s_] = (nr if r == frow else 1) * (nc if (r, c) == g.fpos else 1)
+        ref.count = counts
+        if wrap != "none":
+            first_row_tokens = {s_ for (kind, val, shown) in rows[0] for s_ in shown}
+            ref.items = [(it[0], it[1], it[2], tuple(it[3]) + (wrap,)) if (it[0] == "tok" and it[1] in first_row_tokens)
+                         else it for it in ref.items]
+        deco += ["TRUE", "true"]
+        if ctx.concrete:
+            import sharepoint2text
+            body = ET.Element(OFFICE + "spreadsheet")
+            body.append(table)
+            doc = next(sharepoint2text.read_ods(_odf_file("ods", body), "x.ods"))
+            ctx.require(doc.get_full_text() == out, "public-api-differs-from-kernel", public=doc.get_full_text()[:200], **info)
+    out = str(out)
+    info["out"] = out[:300]
+    only = None
+    if ctx.perturb == "expect_cell_twice":
+        toks = ref.tokens("body")
+        ctx.assume(len(toks) > 0)
+        cnt = dict(getattr(ref, "count", {}))
+        cnt[toks[0][1]] = cnt.get(toks[0][1], 1) + 1
+        ref.count = cnt
+        only = toks[0][1]
+    _judge(ctx, "K5", ref, [("text", out)], deco_strings=deco, info=info, only_token=only, rules=K5_RULES[fmt])
+
+
+def _k5_parts(tier):
+    R, C = (3, 2) if tier == "quick" else (3, 3)
+    ods = {"fmt": "ods", "R": 2 if tier == "quick" else 3, "C": 2, "rep_max": 2 if tier == "quick" else 3}
+    return [{"fmt": "xlsx", "R": R, "C": C}, {"fmt": "xls", "R": R, "C": C},
+            dict(ods, repeat="cell"), dict(ods, repeat="row")]
+
+
+def _k5_targets():
+    import sharepoint2text.parsing.extractors.ms_modern.xlsx_extractor as xm
+    import sharepoint2text.parsing.extractors.ms_legacy.xls_extractor as xl
+    import sharepoint2text.parsing.extractors.open_office.ods_extractor as od
+    return [xm._read_sheet_data, xm._format_sheet_as_text, xm._format_value_for_display, xl._read_content,
+            xl._get_cell_values, xl._get_cell_value, xl._format_sheet_as_text, od._extract_sheet, od._extract_cell_value]
+
+
+# =======================================================================================
+# K6  presentation text plumbing: PPT text blocks (symbolic text type) and the PPTX slide walk
+#     (symbolic shape positions, symbolic paragraph-child name)
+# =======================================================================================
+
+PML = "{http://schemas.openxmlformats.org/presentationml/2006/main}"
+REL = "{http://schemas.openxmlformats.org/officeDocument/2006/relationships}"
+
+K6_RULES = {
+    "ppt": [
+        ("ppt-paragraph-and-line-breaks-deleted", ("boundary-merged",), ("block-paragraph",), ()),
+    ],
+    "pptx": [
+        ("pptx-alternatecontent-fallback-shape-in-text", ("excluded-text-leaks",), ("ac-fallback",), ()),
+    ],
+}
+
+# [MS-PPT] 2.13.33 TextTypeEnum
+PPT_TEXT_TYPES = {0: "title", 1: "body", 2: "notes", 4: "other", 5: "body", 6: "title", 7: "body", 8: "body"}
+# ECMA-376 21.1.2: children of a:p
+DML_PAR_CHILD_SPEC = {"r": "run", "br": "sep", "fld": "run", "pPr": "props", "endParaRPr": "props", "t": "invalid"}
+
+
+class _FakePptxCtx:
+    def __init__(self, root, comments):
+        self.root, self.comments = root, comments
+
+    def get_slide_relationships(self, path):
+        return {}
+
+    def get_slide_root(self, path):
+        return self.root
+
+    def get_comment_root(self, n):
+        return self.comments
+
+    def get_image_data(self, path):
+        return None
+
+
+def _pptx_file(slide_root, comment_root):
+    ns = 'xmlns:p="%s" xmlns:r="%s"' % (PML[1:-1], REL[1:-1])
+    pres = ('<?xml version="1.0" encoding="UTF-8"?><p:presentation %s><p:sldIdLst><p:sldId id="256" r:id="rId1"/>'
+            '</p:sldIdLst></p:presentation>' % ns)
+    rels = ('<?xml version="1.0" encoding="UTF-8"?><Relationships xmlns="http://schemas.openxmlformats.org/package/2006/'
+            'relationships"><Relationship Id="rId1" Type="http://schemas.openxmlformats.org/officeDocument/2006/'
+            'relationships/slide" Target="slides/slide1.xml"/></Relationships>')
+    bio = io.BytesIO()
+    with zipfile.ZipFile(bio, "w", zipfile.ZIP_DEFLATED) as z:
+        z.writestr("[Content_Types].xml", '<?xml version="1.0"?><Types xmlns="http://schemas.openxmlformats.org/package/'
+                   '2006/content-types"><Default Extension="xml" ContentType="application/xml"/></Types>')
+        z.writestr("ppt/presentation.xml", pres)
+        z.writestr("ppt/_rels/presentation.xml.rels", rels)
+        z.writestr("ppt/slides/slide1.xml", '<?xml version="1.0" encoding="UTF-8"?>' + _xml(slide_root))
+        if comment_root is not None:
+            z.writestr("ppt/comments/comment1.xml", '<?xml version="1.0" encoding="UTF-8"?>' + _xml(comment_root))
+    bio.seek(0)
+    return bio
+
+
+class PptxGen:
+    def __init__(self, ctx):
+        self.ctx = ctx
+        self.ref = Ref()
+        self.k = 0
+        self.shapes = []       # (xml index, y SymInt/int, list of ref items)
+
+    def nm(self, s):
+        self.k += 1
+        return "%s%d" % (s, self.k)
+
+    def sp(self, parent, ph=None, y=None, fill=None, idx=None):
+        sp = ET.SubElement(parent, PML + "sp")
+        nv = ET.SubElement(sp, PML + "nvSpPr")
+        ET.SubElement(nv, PML + "cNvPr").set("id", "2")
+        ET.SubElement(nv, PML + "cNvSpPr")
+        nvpr = ET.SubElement(nv, PML + "nvPr")
+        if ph is not None:
+            e = ET.SubElement(nvpr, PML + "ph")
+            if ph:
+                e.set("type", ph)
+            if idx is not None:
+                e.set("idx", idx)
+        sppr = ET.SubElement(sp, PML + "spPr")
+        if y is not None:
+            x = ET.SubElement(sppr, A + "xfrm")
+            off = ET.SubElement(x, A + "off")
+            off.set("x", "100")
+            off.set("y", str(y) if isinstance(y, int) else y)
+        tb = ET.SubElement(sp, PML + "txBody")
+        ET.SubElement(tb, A + "bodyPr")
+        fill(tb)
+        return sp
+
+    def par(self, tb, cls="body", extra=()):
+        ref = self.ref
+        ref.sep("para")
+        p = ET.SubElement(tb, A + "p")
+        r = ET.SubElement(p, A + "r")
+        ET.SubElement(r, A + "rPr")
+        ET.SubElement(r, A + "t").text = ref.tok(cls, extra=extra)
+        ET.SubElement(p, A + "endParaRPr")
+        ref.sep("para")
+
+    PAR_KINDS = ["r", "r-br-r", "fld", "sym", "r-r", "empty-r"]
+
+    def focus_par(self, tb):
+        ctx, ref = self.ctx, self.ref
+        ref.sep("para")
+        p = ET.SubElement(tb, A + "p")
+        kinds = ctx.params.get("par_kinds") or self.PAR_KINDS
+        kind = kinds[ctx.choice("par_kind", len(kinds))]
+
+        def run(text):
+            r = ET.SubElement(p, A + "r")
+            ET.SubElement(r, A + "t").text = text
+        run(ref.tok())
+        if kind == "r-br-r":
+            ET.SubElement(p, A + "br")
+            ref.sep("a-br")
+            run(ref.tok())
+        elif kind == "fld":
+            f = ET.SubElement(p, A + "fld")
+            f.set("type", "datetime1")
+            ET.SubElement(f, A + "t").text = ref.tok(extra=("field",))
+        elif kind == "r-r":
+            run(ref.tok())
+        elif kind == "empty-r":
+            run(None)
+            run(ref.tok())
+        elif kind == "sym":
+            loc = _sym_local(ctx, "par_child", ctx.params.get("sym_lens", (1, 2, 3)), "alpha")
+            cls, name = _classify(loc, DML_PAR_CHILD_SPEC)
+            x = ET.SubElement(p, _tag(ctx, A, loc))
+            if cls == "run":
+                ET.SubElement(x, A + "t").text = ref.tok(extra=("sym-" + name,))
+            elif cls == "sep":
+                ref.sep("a-" + name)
+            elif cls == "props":
+                pass
+            else:
+                ET.SubElement(x, A + "t").text = ref.tok("free")
+                x.text = ref.tok("free")
+            run(ref.tok())
+        ref.sep("para")
+
+    SHAPES = ["title", "body-2p", "textbox", "footer", "sldnum", "date", "group", "table", "ac-shape", "focus"]
+
+    def shape(self, tree, kind, y):
+        ctx, ref = self.ctx, self.ref
+        start = len(ref.items)
+        ref.sep("shape")
+        if kind == "title":
+            self.sp(tree, "title", y, lambda tb: self.par(tb, extra=("title",)))
+        elif kind == "body-2p":
+            self.sp(tree, "body", y, lambda tb: (self.par(tb), self.par(tb)), idx="1")
+        elif kind == "textbox":
+            self.sp(tree, None, y, lambda tb: self.par(tb))
+        elif kind == "focus":
+            self.sp(tree, None, y, lambda tb: self.focus_par(tb))
+        elif kind == "footer":
+            # slide footer placeholder: headers/footers are not part of the default text
+            self.sp(tree, "ftr", y, lambda tb: self.par(tb, "excl", extra=("footer",)), idx="11")
+        elif kind == "sldnum":
+            self.sp(tree, "sldNum", y, lambda tb: self.par(tb, "free", extra=("slide-number",)), idx="12")
+        elif kind == "date":
+            self.sp(tree, "dt", y, lambda tb: self.par(tb, "free", extra=("date",)), idx="10")
+        elif kind == "group":
+            grp = ET.SubElement(tree, PML + "grpSp")
+            ET.SubElement(grp, PML + "nvGrpSpPr")
+            gp = ET.SubElement(grp, PML + "grpSpPr")
+            ref.push("group")
+            self.sp(grp, None, y, lambda tb: self.par(tb))
+            ref.pop()
+        elif kind == "table":
+            fr = ET.SubElement(tree, PML + "graphicFrame")
+            ET.SubElement(fr, PML + "nvGraphicFramePr")
+            xf = ET.SubElement(fr, PML + "xfrm")
+            off = ET.SubElement(xf, A + "off")
+            off.set("x", "100")
+            off.set("y", str(y) if isinstance(y, int) else y)
+            gd = ET.SubElement(ET.SubElement(fr, A + "graphic"), A + "graphicData")
+            gd.set("uri", "http://schemas.openxmlformats.org/drawingml/2006/table")
+            tbl = ET.SubElement(gd, A + "tbl")
+            ref.push("table")
+            for ri in range(2):
+                tr = ET.SubElement(tbl, A + "tr")
+                for ci in range(2):
+                    ref.sep("cell")
+                    tc = ET.SubElement(tr, A + "tc")
+                    tb = ET.SubElement(tc, A + "txBody")
+                    self.par(tb)
+                    if ri == 0 and ci == 0:
+                        self.par(tb)
+                    ref.sep("cell")
+            ref.pop()
+        elif kind == "ac-shape":
+            # shape using a newer feature with a fallback rendition of the same content
+            ac = ET.SubElement(tree, MC + "AlternateContent")
+            ch = ET.SubElement(ac, MC + "Choice")
+            ch.set("Requires", "a14")
+            self.sp(ch, None, y, lambda tb: self.par(tb, extra=("ac-choice",)))
+            fb = ET.SubElement(ac, MC + "Fallback")
+            self.sp(fb, None, y, lambda tb: self.par(tb, "excl", extra=("ac-fallback",)))
+        ref.sep("shape")
+        self.shapes.append((y, start, len(ref.items)))
+
+
+def k6_slides(ctx):
+    fmt = ctx.params["fmt"]
+    if fmt == "ppt":
+        import sharepoint2text.parsing.extractors.ms_legacy.ppt_extractor as pp
+        from sharepoint2text.parsing.extractors.data_types import PptContent
+        ref = Ref()
+        n_slides = 1 + (ctx.choice("extra_slide", 2) if ctx.params.get("slides", 1) > 1 else 0)
+        RAW = ["%s", "%s\r%s", "%s\x0b%s", " %s \x00", "%s\r\r%s", "%s\t%s"]
+        # blocks in SOURCE order, each with a symbolic text type; the reference is ordered afterwards
+        plan = []
+        slides_texts = []
+        info = {}
+        try:
+            for si in range(n_slides):
+                nb = 1 + ctx.choice("blocks_on_slide%d" % si, ctx.params.get("B", 3))
+                blocks, blist = [], []
+                for bi in range(nb):
+                    if si == 0 and bi == 0:
+                        # focus block: symbolic text type (or no TextHeaderAtom at all), raw text forms
+                        t = ctx.fresh_int("text_type", 0, 8) if ctx.flag("has_text_header") else None
+                        raw = RAW[ctx.choice("raw_text", len(RAW))]
+                    else:
+                        t = (0, 1, 2, 4)[ctx.choice("text_type%d_%d" % (si, bi), 4)]
+                        raw = "%s"
+                    start = len(ref.items)
+                    ref.sep("block")
+                    toks = []
+                    for j in range(raw.count("%s")):
+                        if j:
+                            ref.sep("tab" if "\t" in raw else "block-paragraph")
+                        toks.append(ref.tok())
+                    ref.sep("block")
+                    blocks.append((t, start, len(ref.items)))
+                    blist.append(pp._make_text_block(pp._clean_text(raw % tuple(toks)), t))
+                plan.append(blocks)
+                slides_texts.append(blist)
+            content = PptContent()
+            pp._build_slides_from_text_blocks(content, slides_texts)
+            out = content.get_full_text()
+        except Exception as e:
+            ctx.fail("extractor-raised", exc=type(e).__name__, msg=str(e)[:100], **info)
+            return
+        # documented order per slide: first title, bodies, others (further titles count as other); notes excluded
+        items = []
+        shown = []
+        for blocks in plan:
+            order = []
+            seen_title = False
+            for i, (t, a_, b_) in enumerate(blocks):
+                cls = "other"
+                if t is not None:
+                    cls = PPT_TEXT_TYPES.get(t if isinstance(t, int) else ctx.conc(t, 0, 8), "other")
+                grp = cls
+                if cls == "title":
+                    grp = "other" if seen_title else "title"
+                    seen_title = True
+                order.append(({"title": 0, "body": 1, "other": 2, "notes": 3}[grp], i, cls))
+            shown.append([c for _, _, c in order])
+            items.append(("sep", ("slide",)))
+            for rank, i, cls in sorted(order):
+                for it in ref.items[blocks[i][1]:blocks[i][2]]:
+                    if it[0] == "tok":
+                        it = ("tok", it[1], "excl" if cls == "notes" else "body", tuple(it[3]) + (cls,))
+                    items.append(it)
+            items.append(("sep", ("slide",)))
+        ref.items = items
+        info["blocks"] = shown
+        info["out"] = out[:300]
+        only = None
+        if ctx.perturb == "notes_are_body":
+            ex = ref.tokens("excl")
+            ctx.assume(len(ex) > 0)
+            i = ref.items.index(ex[0])
+            ref.items[i] = ("tok", ex[0][1], "body", ex[0][3])
+            only = ex[0][1]
+        _judge(ctx, "K6", ref, [("text", out)], info=info, only_token=only, rules=K6_RULES["ppt"])
+        return
+    # ---- pptx slide walk
+    import sharepoint2text.parsing.extractors.ms_modern.pptx_extractor as px
+    from sharepoint2text.parsing.extractors.data_types import PptxContent
+    g = PptxGen(ctx)
+    ref = g.ref
+    root = ET.Element(PML + "sld")
+    tree = ET.SubElement(ET.SubElement(root, PML + "cSld"), PML + "spTree")
+    ET.SubElement(tree, PML + "nvGrpSpPr")
+    ET.SubElement(tree, PML + "grpSpPr")
+    n = 1 + ctx.choice("n_shapes", ctx.params.get("N", 2))
+    ys = []
+    kinds = []
+    for i in range(n):
+        first = ctx.params.get("first")
+        kind = first if (first and i == 0) else g.SHAPES[ctx.choice(g.nm("shape"), len(g.SHAPES))]
+        y = ctx.fresh_int("y%d" % i, 0, 3)
+        for other in ys:
+            ctx.assume(y != other)          # equal offsets: reading order undefined
+        ys.append(y)
+        kinds.append(kind)
+        g.shape(tree, kind, y * 1000 if isinstance(y, int) else S.SymInt(y.z * 1000))
+    comments = None
+    if not ctx.params.get("no_comment") and ctx.flag("has_comment"):
+        comments = ET.Element(PML + "cmLst")
+        cm = ET.SubElement(comments, PML + "cm")
+        cm.set("authorId", "0")
+        cm.set("dt", "2024-01-01T00:00:00")
+        ET.SubElement(cm, PML + "text").text = ref.tok("excl", extra=("comment",))
+    info = {"doc": _show(tree)[:700], "shapes": kinds}
+    try:
+        with ctx.shadow(px, int=S.IntShadow):
+            slide = px._process_slide_from_context(_FakePptxCtx(root, comments), "ppt/slides/slide1.xml", 1)
+        out = PptxContent(slides=[slide]).get_full_text()
+    except Exception as e:
+        ctx.fail("extractor-raised", exc=type(e).__name__, msg=str(e)[:100], **info)
+        return
+    out = str(out)
+    # reading order = documented top-to-bottom order of the shapes: sort the reference by the (now decided) offsets
+    yv = [ctx.conc(y, 0, 3) for y in ys]
+    info["y"] = yv
+    info["out"] = out[:300]
+    segs = sorted(zip(yv, range(len(g.shapes))))
+    tail = ref.items[g.shapes[-1][2]:] if g.shapes else []
+    head = ref.items[:g.shapes[0][1]] if g.shapes else []
+    items = list(head)
+    for _, si in segs:
+        items += ref.items[g.shapes[si][1]:g.shapes[si][2]]
+    ref.items = items + list(tail)
+    if ctx.concrete:
+        import sharepoint2text
+        doc = next(sharepoint2text.read_pptx(_pptx_file(root, comments), "x.pptx"))
+        ctx.require(doc.get_full_text() == out, "public-api-differs-from-kernel", public=doc.get_full_text()[:200], **info)
+    only = None
+    if ctx.perturb == "footer_is_body":
+        ex = ref.tokens("excl")
+        ctx.assume(len(ex) > 0)
+        i = ref.items.index(ex[0])
+        ref.items[i] = ("tok", ex[0][1], "body", ex[0][3])
+        only = ex[0][1]
+    _judge(ctx, "K6", ref, [("text", out)], info=info, only_token=only, rules=K6_RULES["pptx"])
+
+
+def _k6_parts(tier):
+    parts = [{"fmt": "ppt", "B": 2, "slides": 1 if tier == "quick" else 2}]
+    lens = (1, 2, 3) if tier == "quick" else (1, 2, 3, 10)
+    plain = [k for k in PptxGen.PAR_KINDS if k != "sym"]
+    for first in PptxGen.SHAPES:
+        parts.append({"fmt": "pptx", "N": 2, "first": first, "par_kinds": plain})
+    if tier != "quick":
+        for first in ("title", "table", "ac-shape"):
+            parts.append({"fmt": "pptx", "N": 3, "first": first, "par_kinds": ["r"], "no_comment": True})
+    for ln in lens:
+        parts.append({"fmt": "pptx", "N": 1 if tier == "quick" else 2, "first": "focus", "par_kinds": ["sym"], "sym_lens": (ln,)})
+    return parts
+
+
+def _k6_targets():
+    import sharepoint2text.parsing.extractors.ms_legacy.ppt_extractor as pp
+    import sharepoint2text.parsing.extractors.ms_modern.pptx_extractor as px
+    from sharepoint2text.parsing.extractors import data_types as dt
+    return [pp._build_slides_from_text_blocks, pp._clean_text, pp._make_text_block, dt.PptContent.get_full_text,
+            px._process_slide_from_context, px._extract_text_from_paragraphs, px._extract_table_from_graphic_frame,
+            px._get_shape_position, dt.PptxSlide.get_text, dt.PptxContent.get_full_text]
+
+
 KERNELS = [
     Kernel("K1", "DOCX body walk on bounded abstract documents (symbolic run-child names): tokens once, in order, "
                  "boundaries kept, Fallback/deleted/field-code text absent",
            k1_docx, targets=_k1_targets, parts=_k1_parts,
-           perturb=[("fallback_is_body", {"space": "inline", "M": 1, "sym_lens": (1,)}),
-                    ("expect_merged_paragraphs", {"space": "inline", "M": 1, "sym_lens": (1,)})],
+           perturb=[("fallback_is_body", {"space": "inline", "M": 1, "sym_lens": (1,), "first_inline": None,
+                                          "inline_kinds": ["para-ac"]}),
+                    ("expect_merged_paragraphs", {"space": "inline", "M": 1, "sym_lens": (1,), "first_inline": None,
+                                                  "inline_kinds": ["run"]})],
            symbolic=["local name of one run child per run-sym item (length 1,2,3,7; thorough +4,9,12,13): the walker's "
                      "own == / endswith tests split the names, the reference classifies them by ECMA-376 17.3.3"],
            choices=["number and kind of inline items of the focus paragraph (run, run+tab/br/cr, hyperlink, ins, del, "
@@ -1573,9 +2569,9 @@ KERNELS = [
                  "ODG / ODP page walk against the reference stream",
            k2_odf, targets=_k2_targets, parts=_k2_parts,
            perturb=[("note_is_body", {"fmt": "odt", "space": "inline", "M": 1, "c_range": (0, 1), "sym_lens": (1,),
-                                      "inline_kinds": ["note"]}),
+                                      "inline_kinds": ["note"], "first_inline": None}),
                     ("one_more_space", {"fmt": "odt", "space": "inline", "M": 1, "c_range": (0, 2), "sym_lens": (1,),
-                                        "inline_kinds": ["s-count", "s-default"]})],
+                                        "inline_kinds": ["s-count", "s-default"], "first_inline": None})],
            symbolic=["text:c of a text:s (integer in [-1,3], thorough [-2,8]) through int() / > 0 / ' ' * n of the walker",
                      "local name of one inline child and of one block child in the text: namespace (lengths 1,3,4,10 / "
                      "1,4,7): the walkers' own ==, `in (p, h)` and `in skip_tags` tests split the names"],
@@ -1594,8 +2590,10 @@ KERNELS = [
     Kernel("K3", "HTML tree builder + text walk and EPUB XHTML walker on generated event streams (symbolic inline "
                  "tag name): visible structure kept",
            k3_html, targets=_k3_targets, parts=_k3_parts,
-           perturb=[("comment_is_body", {"target": "html", "space": "inline", "M": 1, "inline_kinds": ["comment"]}),
-                    ("inline_is_boundary", {"target": "epub", "space": "inline", "M": 1, "inline_kinds": ["b-nested"]})],
+           perturb=[("comment_is_body", {"target": "html", "space": "inline", "M": 1, "inline_kinds": ["comment"],
+                                         "omit_end": False}),
+                    ("inline_is_boundary", {"target": "epub", "space": "inline", "M": 1, "inline_kinds": ["b-nested"],
+                                            "omit_end": False})],
            symbolic=["name of one inline element (lower-case letters/digits, length 1,2,3,5,6; thorough up to 10): the "
                      "handlers' / walker's own set-membership and equality tests split the names; the reference "
                      "classifies them from the HTML Living Standard (void, removed, block, inline, not rendered)"],
@@ -1611,10 +2609,78 @@ KERNELS = [
                     "text ends in an unterminated '&' (read_html never calls close())",
                     "MHTML MIME unwrapping, EPUB spine/zip plumbing"],
            timeout={"quick": 100, "thorough": 1100}),
+    Kernel("K4", "RTF: the real reader (read_rtf -> _extract_body_text -> _strip_rtf_full_with_pages) on documents "
+                 "assembled from a lexeme alphabet against a reference RTF reader",
+           k4_rtf, targets=_k4_targets, parts=_k4_parts, strength="structure",
+           perturb=[("header_is_body", {"L": 1, "lexemes": ["header"], "first": "header"})],
+           choices=["1..L lexemes (L=2, thorough 3) from: text, groups, \\par \\tab \\line \\cell \\row \\page \\sect, "
+                    "\\'hh, \\uN with ? / hex fallback, negative \\uN, \\* destination, fonttbl, info, header, footer, "
+                    "\\deleted, annotation, \\ul \\ulnone \\uc1, escaped specials, pard/plain, \\~, field with result, "
+                    "nested groups, picture", "a body token between two lexemes or not"],
+           assumptions=["reference semantics from the RTF 1.9.1 specification: destinations marked \\* and fonttbl / info / "
+                        "header / footer / pict are not body text; \\uN is followed by \\uc (default 1) fallback "
+                        "characters that are skipped; \\cell / \\row / \\par / \\line / \\tab / \\page / \\sect are "
+                        "boundaries; text marked \\deleted is a tracked deletion"],
+           outside=["code pages other than 1252, \\bin data, tables' \\trowd geometry, more than L lexemes"],
+           timeout={"quick": 100, "thorough": 1100}),
+    Kernel("K5", "sheet-to-text of xlsx / xls / ods on abstract grids: every displayed cell once, row-major order, "
+                 "cells separated, comments absent, nothing but cell text, sheet name and padding",
+           k5_sheets, targets=_k5_targets, parts=_k5_parts,
+           perturb=[("expect_cell_twice", {"fmt": "ods", "R": 1, "C": 2, "rep_max": 2, "repeat": "cell"})],
+           symbolic=["ods: table:number-columns-repeated of the focus cell and table:number-rows-repeated of its row "
+                     "(1..rep_max or 100..101) through int(), > 100 and list * n of the real _extract_sheet",
+                     "xls: xlrd cell type of the focus cell (0..6): the extractor's own ctype tests split it, the "
+                     "reference classifies it from the xlrd documentation"],
+           choices=["grid rows x cols (<= 3 x 2, thorough 3 x 3), every other cell token or empty, focus cell at the first "
+                    "or last position with kind from: token, None, '', ' ', inner space, int, integral float, float, bool, "
+                    "two paragraphs (ods), cell with comment (ods)", "ods: first row inside table-header-rows / "
+                    "table-row-group", "xls: number form"],
+           stubs=["xlsx symbolic runs: worksheet stand-in with iter_rows(values_only=True) (replay: real workbook written "
+                  "by openpyxl and read through read_xlsx)", "xls: xlrd.open_workbook -> fake book/sheet/cell objects",
+                  "ods: _extract_sheet called with ctx=None (no images in the generated table)"],
+           assumptions=["display text of an int n / integral float is str(n) (an added '.0' is accepted), of a float its repr",
+                        "a cell repeated n times shows its text n times; booleans, dates and error cells carry no demand"],
+           outside=["number formats (dates, currency, percentages), merged/covered cells, formulas' cached values, "
+                    "xlrd's own BIFF parsing, openpyxl's XML parsing"],
+           timeout={"quick": 100, "thorough": 1100}),
+    Kernel("K6", "presentation text plumbing: PPT text blocks with symbolic text type through _clean_text / "
+                 "_make_text_block / _build_slides_from_text_blocks / get_full_text; PPTX slide walk with symbolic shape "
+                 "offsets and symbolic paragraph-child name",
+           k6_slides, targets=_k6_targets, parts=_k6_parts,
+           perturb=[("notes_are_body", {"fmt": "ppt", "B": 2, "slides": 1}),
+                    ("footer_is_body", {"fmt": "pptx", "N": 1, "first": "footer", "sym_lens": (1,), "par_kinds": ["r"]})],
+           symbolic=["ppt: TextHeaderAtom text type of every block (0..8): the extractor's own set-membership tests "
+                     "split it, the reference classifies it from [MS-PPT] TextTypeEnum",
+                     "pptx: a:off y of every shape (distinct, 0..3 x 1000) through int() and the position sort",
+                     "pptx: local name of one child of a:p (length 1,2,3; thorough +10)"],
+           choices=["ppt: 1-2 slides, 1-B blocks, raw block text with \\r / \\x0b / \\t / NUL, block without TextHeaderAtom",
+                    "pptx: 1-N shapes from title, body with two paragraphs, text box, footer / slide number / date "
+                    "placeholders, group, table 2x2, AlternateContent shape with fallback, focus paragraph (run, br, "
+                    "fld, empty run); slide comment"],
+           stubs=["pptx: _PptxContext stand-in handing over the generated slide / comment trees (replay: a real .pptx "
+                  "through read_pptx)"],
+           assumptions=["ppt: documented order title, body, other per slide; notes excluded",
+                        "pptx: reading order = top-to-bottom shape offsets (documented); shapes have distinct offsets"],
+           outside=["PPT record walk (_iter_records / SlideListWithText) on bytes, pptx slide order / relationships / "
+                    "zip plumbing, shapes without offsets (layout inheritance)"],
+           timeout={"quick": 100, "thorough": 1100}),
 ]
 
 META = {
-    "level_text": "",
-    "level_note": "",
-    "technique": "",
+    "level_text": "Six walkers that turn parsed documents into get_full_text() are executed on every abstract document of a "
+                  "bounded grammar (DOCX body, ODF text/drawing/presentation pages, HTML/XHTML event streams, RTF lexeme "
+                  "strings, xlsx/xls/ods grids, PPT text blocks / PPTX slide trees); structure is enumerated by solver "
+                  "choices, element names, cell types, text:s counts, repeat attributes and shape offsets are symbolic so "
+                  "that the walkers' own comparisons, int() conversions and sorts split the cases; on every feasible path "
+                  "the output is compared with a reference stream written from the format specifications: each body token "
+                  "exactly once, in reading order, boundary-separated tokens separated by whitespace, excluded text absent, "
+                  "nothing foreign. 33 defect classes found this way are recorded as known findings with replayable witnesses.",
+    "level_note": "Bounded-exhaustive over the stated grammars (<= 2-3 inline/block items, tables <= 2x2, one nesting level, "
+                  "names up to 10-13 characters); trusted: xml.etree, html.parser lowering (validated at replay through the "
+                  "real feed()), openpyxl/xlrd/zipfile hand-over; every counterexample and sampled passing path is re-run "
+                  "on plain values and through the public read_* entry points on a generated file. Outside: PDF, DOC, "
+                  "e-mail bodies, MHTML unwrapping, PPT/XLS byte-level record parsing, number formats.",
+    "technique": "symbolic execution of the extractors' tree/text walkers on real ElementTree / parser-callback / fake "
+                 "workbook inputs with symbolic names and integers (symrun proxies, per-fork z3 feasibility), reference "
+                 "renderer oracle, failure-class signatures for known findings",
 }
